@@ -2,6 +2,7 @@ CONSTANTS
   N = 5
   MaxB = 5
   WithInit = FALSE
+  CanonInit = FALSE
   EmitCases = TRUE
 INIT Init
 NEXT Next
